@@ -35,10 +35,12 @@ var (
 		}
 		return s
 	}}
-	ETString = ElemType[string]{"string", func(r *core.Rng) string { return []string{"", "a", "b", "ab", "k", "v", "x y", "é"}[r.Intn(8)] + strconv.Itoa(r.Intn(4)) }, litString}
-	ETRune   = ElemType[rune]{"rune", func(r *core.Rng) rune { return []rune{'a', 'b', 'c', 'é', 'z', '0', 'Q', '☺'}[r.Intn(8)] }, func(v rune) string { return strconv.QuoteRune(v) }}
-	ETBool   = ElemType[bool]{"bool", func(r *core.Rng) bool { return r.Bool() }, func(v bool) string { return strconv.FormatBool(v) }}
-	ETAny    = ElemType[any]{"any", func(r *core.Rng) any {
+	ETString = ElemType[string]{"string", func(r *core.Rng) string {
+		return []string{"", "a", "b", "ab", "k", "v", "x y", "é"}[r.Intn(8)] + strconv.Itoa(r.Intn(4))
+	}, litString}
+	ETRune = ElemType[rune]{"rune", func(r *core.Rng) rune { return []rune{'a', 'b', 'c', 'é', 'z', '0', 'Q', '☺'}[r.Intn(8)] }, func(v rune) string { return strconv.QuoteRune(v) }}
+	ETBool = ElemType[bool]{"bool", func(r *core.Rng) bool { return r.Bool() }, func(v bool) string { return strconv.FormatBool(v) }}
+	ETAny  = ElemType[any]{"any", func(r *core.Rng) any {
 		switch r.Intn(5) {
 		case 0:
 			return int64(r.Intn(9) - 4)
